@@ -8,6 +8,8 @@ import GocoinV.Proofs.C19Lazy
 namespace GocoinV.Proofs.C19
 open GocoinV GocoinV.Qdb GocoinV.QdbSpec
 
+variable {eg : Bool}
+
 /-! ### records and indices up to "not in memory" -/
 
 /-- `ra` is `rg`, possibly without its data in memory -/
@@ -148,7 +150,7 @@ structure Lz (a g : DB) : Prop where
   idx : SubL a.index g.index
   np : ∀ k r, ilookup k a.index = some r → r.data = none → k ∉ a.pending
 
-theorem Lz.refl (a : DB) (hc : AllCached a.index) : Lz a a :=
+theorem Lz.refl (a : DB) (hc : AllCached eg a.index) : Lz a a :=
   ⟨rfl, SubL.refl _, fun k r hl hd => by
     have := (allCached_lookup hc k r hl).1
     rw [hd] at this; cases this⟩
@@ -770,5 +772,479 @@ theorem sync_lz {a g : DB} (h : Lz a g) (h3 : Inv3 g) (hs : SizeOK g) (hseq : g.
       have hc := (defrag_cached L h3L.inv.cached).cached
       exact Lz.refl _ hc.2
     · exact hM
+
+/-! ### Browse -/
+
+/-- the index Browse leaves on `a`'s side: skipped records stay as they are, visited ones are loaded -/
+def mixL (all : Bool) (w : List (Key × Nat)) : List (Key × Rec) → List (Key × Rec) → List (Key × Rec)
+  | (ka, ra) :: ta, (kg, rg) :: tg =>
+      (if !all && hasFlag rg.flags NO_BROWSE then (ka, ra) else browseRec all w (kg, rg)) :: mixL all w ta tg
+  | _, _ => []
+
+theorem mixL_subL (all : Bool) (w : List (Key × Nat)) (la lg : List (Key × Rec)) (h : SubL la lg) :
+    SubL (mixL all w la lg) (lg.map (browseRec all w)) := by
+  induction la generalizing lg with
+  | nil =>
+    cases lg with
+    | nil => trivial
+    | cons y t => exact absurd h (by simp [SubL])
+  | cons x ta ih =>
+    cases lg with
+    | nil => exact absurd h (by simp [SubL])
+    | cons y tg =>
+      obtain ⟨ka, ra⟩ := x
+      obtain ⟨kg, rg⟩ := y
+      obtain ⟨rfl, hs, ht⟩ := h
+      simp only [mixL, List.map_cons]
+      by_cases hb : (!all && hasFlag rg.flags NO_BROWSE) = true
+      · have e : browseRec all w (ka, rg) = (ka, rg) := by unfold browseRec; simp only [hb, ↓reduceIte]
+        rw [e]
+        simp only [hb, ↓reduceIte]
+        exact ⟨rfl, hs, ih tg ht⟩
+      · simp only [hb, ↓reduceIte]
+        refine ⟨rfl, Sub.refl _, ih tg ht⟩
+
+theorem mixL_lazy (all : Bool) (w : List (Key × Nat)) (la lg : List (Key × Rec)) (h : SubL la lg)
+    (hc : AllCached eg lg) (k : Key) (r : Rec) (hl : ilookup k (mixL all w la lg) = some r) (hd : r.data = none) :
+    ilookup k la = some r := by
+  induction la generalizing lg with
+  | nil =>
+    cases lg with
+    | nil => simp [mixL, ilookup] at hl
+    | cons y t => exact absurd h (by simp [SubL])
+  | cons x ta ih =>
+    cases lg with
+    | nil => exact absurd h (by simp [SubL])
+    | cons y tg =>
+      obtain ⟨ka, ra⟩ := x
+      obtain ⟨kg, rg⟩ := y
+      obtain ⟨rfl, hs, ht⟩ := h
+      have hcg := hc (ka, rg) List.mem_cons_self
+      simp only [mixL] at hl
+      by_cases hb : (!all && hasFlag rg.flags NO_BROWSE) = true
+      · simp only [hb, ↓reduceIte, ilookup] at hl ⊢
+        by_cases hk : ka = k
+        · simp only [hk, ↓reduceIte] at hl ⊢; exact hl
+        · simp only [hk, ↓reduceIte] at hl ⊢
+          exact ih tg ht (fun x hx => hc x (List.mem_cons_of_mem _ hx)) hl
+      · have e : (if (!all && hasFlag rg.flags NO_BROWSE) = true then (ka, ra) else browseRec all w (ka, rg)) =
+            (ka, { rg with flags := applyBrowsingFlags rg.flags (walkRes w ka) }) := by
+          unfold browseRec; simp [hb]
+        rw [e] at hl
+        simp only [ilookup] at hl ⊢
+        by_cases hk : ka = k
+        · simp only [hk, ↓reduceIte] at hl
+          cases hl
+          have := hcg.1
+          simp only at hd
+          rw [hd] at this; cases this
+        · simp only [hk, ↓reduceIte] at hl ⊢
+          exact ih tg ht (fun x hx => hc x (List.mem_cons_of_mem _ hx)) hl
+
+theorem browseFold_lz (all : Bool) (w : List (Key × Nat)) (hw : WalkOK eg w) (db : DB) (hf : db.failed = none)
+    (la lg : List (Key × Rec)) (hs : SubL la lg) (hc : AllCached eg lg)
+    (hload : ∀ k ra rg, (k, ra) ∈ la → (k, rg) ∈ lg → Sub ra rg → Qdb.loadrec db.fs ra = some rg)
+    (acc : List (Key × Rec)) (out : List (Key × Bytes)) :
+    la.foldl (browseStep all w) (db, acc, out) =
+      (db, acc ++ mixL all w la lg, out ++ lg.filterMap (browseOut all)) := by
+  induction la generalizing lg acc out with
+  | nil =>
+    cases lg with
+    | nil => simp [mixL]
+    | cons y t => exact absurd hs (by simp [SubL])
+  | cons x ta ih =>
+    cases lg with
+    | nil => exact absurd hs (by simp [SubL])
+    | cons y tg =>
+      obtain ⟨ka, ra⟩ := x
+      obtain ⟨kg, rg⟩ := y
+      obtain ⟨rfl, hsub, ht⟩ := hs
+      have hcg := hc (ka, rg) List.mem_cons_self
+      have hfl : ra.flags = rg.flags := hsub.fields.2.2.2
+      have hstep : browseStep all w (db, acc, out) (ka, ra) =
+          (db, acc ++ [if !all && hasFlag rg.flags NO_BROWSE then (ka, ra) else browseRec all w (ka, rg)],
+           out ++ (browseOut all (ka, rg)).toList) := by
+        unfold browseStep browseRec browseOut
+        simp only [hf, hfl]
+        by_cases hb : (!all && hasFlag rg.flags NO_BROWSE) = true
+        · simp [hb]
+        · simp only [hb, ↓reduceIte]
+          rw [hload ka ra rg List.mem_cons_self List.mem_cons_self hsub]
+          simp only []
+          rw [freerec_cached _ (applyBF_keeps_noNC _ _ hcg.2 (walkRes_ok w hw ka))]
+          simp
+      simp only [List.foldl_cons, hstep]
+      rw [ih tg ht (fun x hx => hc x (List.mem_cons_of_mem _ hx))
+        (fun k r1 r2 h1 h2 h3 => hload k r1 r2 (List.mem_cons_of_mem _ h1) (List.mem_cons_of_mem _ h2) h3)]
+      simp only [mixL, List.filterMap_cons]
+      cases hb : browseOut all (ka, rg) <;> simp
+
+theorem browseGen_lz (all : Bool) {a g : DB} (h : Lz a g) (inv : DiskInv g) (w : List (Key × Nat)) (hw : WalkOK eg w) :
+    Lz (browseGen all a w).1 (browseGen all g w).1 ∧ (browseGen all a w).2 = (browseGen all g w).2 := by
+  have hfa : a.failed = none := h.failed.trans inv.cached.1
+  obtain ⟨g1, g2⟩ := browseGen_cached all g w inv.cached hw
+  have hnd := h.nodup inv
+  have hfold := browseFold_lz all w hw a hfa a.index g.index h.idx inv.cached.2
+    (fun k ra rg h1 h2 h3 => h.loadrec inv k ra rg (ilookup_of_mem_nodup _ hnd k ra h1)
+      (ilookup_of_mem_nodup _ inv.nodup k rg h2) h3) [] []
+  have ea : browseGen all a w = ({ a with index := mixL all w a.index g.index }, g.index.filterMap (browseOut all)) := by
+    unfold browseGen
+    simp only [hfa, Option.isSome_none, Bool.false_eq_true, ↓reduceIte]
+    rw [hfold]
+    simp [hfa]
+  rw [ea, g1, g2]
+  refine ⟨⟨h.sh, mixL_subL all w _ _ h.idx, ?_⟩, rfl⟩
+  intro k r hl hd
+  exact h.np k r (mixL_lazy all w _ _ h.idx inv.cached.2 k r hl hd) hd
+
+/-! ### every operation other than a reopen -/
+
+theorem syncneeded_shell {a g : DB} (h : shell a = shell g) : syncneeded a = syncneeded g := by
+  have h1 : a.volatile = g.volatile := (congrArg DB.volatile h : (shell a).volatile = (shell g).volatile)
+  have h2 : a.pending = g.pending := (congrArg DB.pending h : (shell a).pending = (shell g).pending)
+  have h3 : a.opts = g.opts := (congrArg DB.opts h : (shell a).opts = (shell g).opts)
+  have h4 : a.noSync = g.noSync := (congrArg DB.noSync h : (shell a).noSync = (shell g).noSync)
+  unfold syncneeded
+  rw [h1, h2, h3, h4]
+
+theorem afterChange_lz (Ma Mg : DB) (k : Key) (h : Lz (addPending Ma k) (addPending Mg k))
+    (h3 : Inv3 (addPending Mg k)) (hs : SizeOK (addPending Mg k)) (hseq : (addPending Mg k).dataSeq + 1 < 2^32)
+    (hva : Ma.volatile = false) (hvg : Mg.volatile = false) :
+    Lz (afterChange Ma k) (afterChange Mg k) := by
+  unfold afterChange
+  simp only [hva, hvg, Bool.false_eq_true, ↓reduceIte]
+  rw [syncneeded_shell h.sh]
+  split
+  · exact sync_lz h h3 hs hseq
+  · exact h
+
+theorem step_lz {a g : DB} (h : Lz a g) (h3 : Inv3 g) (op : Op) (hnr : ∀ x y z, op ≠ .reopen x y z) (ok : OpOK eg op)
+    (fits : OpFits g op) (hseq : (preSync g op).dataSeq + 1 < 2^32) : Lz (step a op) (step g op) := by
+  have inv := h3.inv
+  have i2 := h3.i2
+  have hfa : a.failed = none := h.failed.trans inv.cached.1
+  have hva : a.volatile = false := h.volatile.trans inv.nv
+  cases op with
+  | reopen x y z => exact absurd rfl (hnr x y z)
+  | put k v =>
+    obtain ⟨f1, f2, f3⟩ := fits
+    show Lz (putExt a k v 0) (putExt g k v 0)
+    unfold putExt
+    rw [if_neg (by simp [hfa]), if_neg (notFailed inv.cached)]
+    obtain ⟨e, n, m, hmp⟩ := memput_same g k (newRec v 0)
+    have hM := putExt_addPending_inv g inv k v 0 f1 f2 (by decide) (by decide)
+    have hM2 : Inv2 (addPending (memput g k (newRec v 0)) k) := by
+      rw [addPending_same, hmp]; exact inv2_same i2 rfl rfl rfl rfl
+    exact afterChange_lz _ _ k (putPending_lz h k (newRec v 0) rfl) ⟨hM, hM2⟩ f3 hseq
+      (by rw [(memput_spec a k _).2.2.1]; exact hva) (by rw [(memput_spec g k _).2.2.1]; exact inv.nv)
+  | putExt k v f =>
+    obtain ⟨f1, f2, f3, f4⟩ := fits
+    show Lz (putExt a k v f) (putExt g k v f)
+    unfold putExt
+    rw [if_neg (by simp [hfa]), if_neg (notFailed inv.cached)]
+    obtain ⟨e, n, m, hmp⟩ := memput_same g k (newRec v f)
+    have hM := putExt_addPending_inv g inv k v f f1 f2 f3 ok
+    have hM2 : Inv2 (addPending (memput g k (newRec v f)) k) := by
+      rw [addPending_same, hmp]; exact inv2_same i2 rfl rfl rfl rfl
+    exact afterChange_lz _ _ k (putPending_lz h k (newRec v f) rfl) ⟨hM, hM2⟩ f4 hseq
+      (by rw [(memput_spec a k _).2.2.1]; exact hva) (by rw [(memput_spec g k _).2.2.1]; exact inv.nv)
+  | del k =>
+    show Lz (del a k) (del g k)
+    unfold del
+    rw [if_neg (by simp [hfa]), if_neg (notFailed inv.cached)]
+    obtain ⟨e, n, hmd⟩ := memdel_same g k
+    have hM := del_addPending_inv g inv k fits.1
+    have hM2 : Inv2 (addPending (memdel g k) k) := by
+      rw [addPending_same, hmd]; exact inv2_same i2 rfl rfl rfl rfl
+    exact afterChange_lz _ _ k (delPending_lz h inv k) ⟨hM, hM2⟩ fits.2 hseq
+      (by rw [(memdel_spec a k).2.2.1]; exact hva) (by rw [(memdel_spec g k).2.2.1]; exact inv.nv)
+  | get k => exact (get_lz h inv k).1
+  | browse w => exact (browseGen_lz false h inv w ok).1
+  | applyFlags k fl => exact applyFlags_lz h inv k fl
+  | noSync => exact noSyncOp_lz h inv
+  | sync =>
+    show Lz (syncOp a) (syncOp g)
+    have ea : syncOp a = sync { a with noSync := false } := by
+      unfold syncOp; rw [if_neg (by simp [hfa]), if_neg (by simp [hva])]
+    have eg : syncOp g = sync { g with noSync := false } := by
+      unfold syncOp; rw [if_neg (notFailed inv.cached), if_neg (by simp [inv.nv])]
+    rw [ea, eg]
+    have h' : Lz { a with noSync := false } { g with noSync := false } :=
+      ⟨congrArg (fun d : DB => { d with noSync := false }) h.sh, h.idx, h.np⟩
+    exact sync_lz h' ⟨inv_noSync g inv false, inv2_same i2 rfl rfl rfl rfl⟩ fits hseq
+  | defrag f =>
+    show Lz (defragOp a f).1 (defragOp g f).1
+    have hx : a.extra = g.extra := (congrArg DB.extra h.sh : (shell a).extra = (shell g).extra)
+    have hn : a.need = g.need := (congrArg DB.need h.sh : (shell a).need = (shell g).need)
+    have ho : a.opts = g.opts := (congrArg DB.opts h.sh : (shell a).opts = (shell g).opts)
+    have ea : (defragOp a f).1 = if (f || decide (g.extra > g.opts.defragPerc * g.need / 100)) = true then defrag a else a := by
+      unfold defragOp; rw [if_neg (by simp [hfa]), if_neg (by simp [hva]), hx, hn, ho]
+      dsimp only
+      split <;> rfl
+    have eg : (defragOp g f).1 = if (f || decide (g.extra > g.opts.defragPerc * g.need / 100)) = true then defrag g else g := by
+      unfold defragOp; rw [if_neg (notFailed inv.cached), if_neg (by simp [inv.nv])]
+      dsimp only
+      split <;> rfl
+    rw [ea, eg]
+    split
+    · rw [defrag_lz h h3 hseq]
+      exact Lz.refl _ (defrag_cached g inv.cached).cached.2
+    · exact h
+
+theorem close_nv (d : DB) (hf : d.failed = none) (hv : d.volatile = false) (hs : (sync d).failed = none) :
+    close d = { sync d with datOpen := false, logOpen := false, index := [], pending := [] } := by
+  unfold close
+  rw [if_neg (by simp [hf])]
+  simp only [hv, Bool.false_eq_true, ↓reduceIte]
+  split
+  · rename_i w hw; rw [hs] at hw; cases hw
+  · rfl
+
+/-- Close leaves the two stores EQUAL (nothing is in memory any more) -/
+theorem close_lz {a g : DB} (h : Lz a g) (h3 : Inv3 g) (hs : SizeOK g) (hseq : g.dataSeq + 1 < 2^32) :
+    close a = close g := by
+  have inv := h3.inv
+  have hfa : a.failed = none := h.failed.trans inv.cached.1
+  have hva : a.volatile = false := h.volatile.trans inv.nv
+  have hl := sync_lz h h3 hs hseq
+  have hsf : (sync g).failed = none := (sync_inv g inv hs).1.cached.1
+  rw [close_nv a hfa hva (hl.failed.trans hsf), close_nv g inv.cached.1 inv.nv hsf]
+  have := congrArg (fun d : DB => { d with datOpen := false, logOpen := false, pending := [] }) hl.sh
+  exact this
+
+/-! ### NewDBExt with LoadData = false -/
+
+theorem subL_loaded (fs : FS) (l : List (Key × Rec)) (h : NoData l) : SubL l (mapV (loadedRec fs) l) := by
+  induction l with
+  | nil => trivial
+  | cons x t ih =>
+    obtain ⟨k, r⟩ := x
+    refine ⟨rfl, Or.inr ?_, ih (fun kr hkr => h kr (List.mem_cons_of_mem _ hkr))⟩
+    have hd : r.data = none := h (k, r) List.mem_cons_self
+    unfold loadedRec
+    cases r
+    simp only at hd
+    simp [hd]
+
+/-- the lazily opened store is related to the eagerly opened one -/
+theorem lazyOpen_lz (F : FS) (opts : Opts) (h : OpenOK eg F) :
+    Lz (openDB F false false opts eg) (openDB F false true opts eg) := by
+  have key : ∀ (F' : FS) (S : OpenState F' false (openIndex { fs := F, volatile := false, opts := opts, eager := eg }))
+      (hR : DirReadable eg F'), Lz (openDB F false false opts eg) (openDB F false true opts eg) := by
+    intro F' S hR
+    generalize hX : openIndex { fs := F, volatile := false, opts := opts, eager := eg } = X at S
+    have hload := loadAll_of_openState F' false X S hR
+    have e1 : openDB F false false opts eg = { X with dataSeq := u32 (X.maxSeq + 1) } := by
+      unfold openDB
+      simp only [Bool.false_eq_true, ↓reduceIte]
+      rw [hX]
+    have e2 : openDB F false true opts eg =
+        { X with index := mapV (loadedRec X.fs) (diskIndex F'), dataSeq := u32 (X.maxSeq + 1) } := by
+      unfold openDB
+      simp only [↓reduceIte]
+      rw [hX, hload]
+    rw [e1, e2]
+    refine ⟨rfl, ?_, ?_⟩
+    · show SubL X.index (mapV (loadedRec X.fs) (diskIndex F'))
+      rw [S.index]
+      exact subL_loaded X.fs _ (diskIndex_noData F')
+    · intro k r _ _
+      show k ∉ X.pending
+      rw [S.pending]; exact List.not_mem_nil
+  rcases h.log with ⟨E, hE, hlog⟩ | hd
+  · exact key F (open_state F false opts E hE hlog h.ver) h.readable
+  · have hR : DirReadable eg (noLog F) := by
+      intro kr hkr
+      rw [diskIndex_noLog F hd] at hkr
+      exact h.readable kr hkr
+    exact key (noLog F) (open_state_discard F false opts hd) hR
+
+/-! ### the eager twin of a history -/
+
+/-- the same operation with LoadData = true -/
+def twinOp : Op → Op
+  | .reopen v _ o => .reopen v true o
+  | op => op
+
+def twinItem : HItem → HItem
+  | .op o => .op (twinOp o)
+  | .crash o n ms vol opts => .crash (twinOp o) n ms vol opts
+
+/-- the same history in which every NewDBExt loads the data at once -/
+def twin (H : List HItem) : List HItem := H.map twinItem
+
+/-- operations of the sub-language with lazy loading: no NO_CACHE flag; Close + NewDBExt with LoadData = true in
+    either mode, or with LoadData = false in non-volatile mode -/
+def OpOK4 (e : Bool) : Op → Prop
+  | .reopen vol load _ => load = true ∨ vol = false
+  | op => OpOK eg op
+
+theorem opOK3_twin (op : Op) (h : OpOK4 eg op) : OpOK3 eg (twinOp op) := by
+  cases op <;> first | exact h | rfl
+
+/-- the lazily loading store `a` and its eager twin `g` -/
+def Twin (a g : DB) : Prop := (a = g ∧ SInv g) ∨ (Lz a g ∧ Inv3 g)
+
+theorem Twin.sinv {a g : DB} (h : Twin a g) : SInv g := by
+  rcases h with ⟨_, h⟩ | ⟨_, h⟩
+  · exact h
+  · exact Or.inl h
+
+theorem Twin.fs {a g : DB} (h : Twin a g) : a.fs = g.fs := by
+  rcases h with ⟨rfl, _⟩ | ⟨h, _⟩
+  · rfl
+  · exact h.fs
+
+theorem Twin.effs {a g : DB} (h : Twin a g) : a.effs = g.effs := by
+  rcases h with ⟨rfl, _⟩ | ⟨h, _⟩
+  · rfl
+  · exact h.effs
+
+theorem Twin.failed {a g : DB} (h : Twin a g) : a.failed = none := by
+  rcases h with ⟨rfl, h⟩ | ⟨h, h3⟩
+  · exact h.cached.1
+  · exact h.failed.trans h3.inv.cached.1
+
+/-- one operation on a store whose records are all in memory, against its twin -/
+theorem twin_step_eq (g : DB) (h : SInv g) (op : Op) (ok : OpOK4 eg op) (fits : OpFits3 g (twinOp op))
+    (hd : DFits (preSync g (twinOp op))) : Twin (step g op) (step g (twinOp op)) := by
+  have S := stepOK g h (twinOp op) (opOK3_twin op ok) fits hd
+  cases op with
+  | reopen vol load opts =>
+    cases load with
+    | true => exact Or.inl ⟨rfl, S.inv⟩
+    | false =>
+      have hv : vol = false := by
+        rcases ok with h | h
+        · cases h
+        · exact h
+      subst hv
+      have c : Closed g := by
+        rcases h with h | h
+        · exact nclose g h fits.1 hd
+        · exact vclose g h fits.1.2 hd
+      obtain ⟨hi, _⟩ := reopen_from g c false opts fits.2
+      have h3 : Inv3 (step g (.reopen false true opts)) := by
+        rcases hi with ⟨_, h⟩ | ⟨hx, _⟩
+        · exact h
+        · cases hx
+      refine Or.inr ⟨?_, h3⟩
+      have hl := lazyOpen_lz (close g).fs opts c.ok
+      have e1 : step g (.reopen false false opts) = { openDB (close g).fs false false opts eg with
+          effs := (close g).effs ++ (openDB (close g).fs false false opts eg).effs } := by
+        show (match (close g).failed with
+          | some _ => close g
+          | none => { openDB (close g).fs false false opts eg with
+                      effs := (close g).effs ++ (openDB (close g).fs false false opts eg).effs }) = _
+        rw [c.failed]
+      have e2 : step g (.reopen false true opts) = { openDB (close g).fs false true opts eg with
+          effs := (close g).effs ++ (openDB (close g).fs false true opts eg).effs } := by
+        show (match (close g).failed with
+          | some _ => close g
+          | none => { openDB (close g).fs false true opts eg with
+                      effs := (close g).effs ++ (openDB (close g).fs false true opts eg).effs }) = _
+        rw [c.failed]
+      show Lz (step g (.reopen false false opts)) (step g (twinOp (.reopen false false opts)))
+      have e3 : twinOp (.reopen false false opts) = .reopen false true opts := rfl
+      rw [e3, e1, e2]
+      exact ⟨congrArg (fun d : DB => { d with effs := (close g).effs ++ d.effs }) hl.sh, hl.idx, hl.np⟩
+  | put k v => exact Or.inl ⟨rfl, S.inv⟩
+  | putExt k v f => exact Or.inl ⟨rfl, S.inv⟩
+  | del k => exact Or.inl ⟨rfl, S.inv⟩
+  | get k => exact Or.inl ⟨rfl, S.inv⟩
+  | browse w => exact Or.inl ⟨rfl, S.inv⟩
+  | applyFlags k fl => exact Or.inl ⟨rfl, S.inv⟩
+  | defrag f => exact Or.inl ⟨rfl, S.inv⟩
+  | sync => exact Or.inl ⟨rfl, S.inv⟩
+  | noSync => exact Or.inl ⟨rfl, S.inv⟩
+
+/-- one operation, lazily loading store against its twin -/
+theorem twin_step (a g : DB) (h : Twin a g) (op : Op) (ok : OpOK4 eg op) (fits : OpFits3 g (twinOp op))
+    (hd : DFits (preSync g (twinOp op))) : Twin (step a op) (step g (twinOp op)) := by
+  rcases h with ⟨rfl, h⟩ | ⟨hl, h3⟩
+  · exact twin_step_eq a h op ok fits hd
+  · cases op with
+    | reopen vol load opts =>
+      have hc : close a = close g := close_lz hl h3 fits.1 hd.seq
+      have e : step a (.reopen vol load opts) = step g (.reopen vol load opts) := by
+        show (match (close a).failed with
+          | some _ => close a
+          | none => { openDB (close a).fs vol load opts eg with
+                      effs := (close a).effs ++ (openDB (close a).fs vol load opts eg).effs }) = _
+        rw [hc]
+        rfl
+      rw [e]
+      exact twin_step_eq g (Or.inl h3) _ ok fits hd
+    | put k v =>
+      exact Or.inr ⟨step_lz hl h3 (.put k v) (fun _ _ _ => by simp) ok fits hd.seq, (step_inv3' g h3 (.put k v) ok fits).1⟩
+    | putExt k v f =>
+      exact Or.inr ⟨step_lz hl h3 (.putExt k v f) (fun _ _ _ => by simp) ok fits hd.seq, (step_inv3' g h3 (.putExt k v f) ok fits).1⟩
+    | del k =>
+      exact Or.inr ⟨step_lz hl h3 (.del k) (fun _ _ _ => by simp) ok fits hd.seq, (step_inv3' g h3 (.del k) ok fits).1⟩
+    | get k =>
+      exact Or.inr ⟨step_lz hl h3 (.get k) (fun _ _ _ => by simp) ok fits hd.seq, (step_inv3' g h3 (.get k) ok fits).1⟩
+    | browse w =>
+      exact Or.inr ⟨step_lz hl h3 (.browse w) (fun _ _ _ => by simp) ok fits hd.seq, (step_inv3' g h3 (.browse w) ok fits).1⟩
+    | applyFlags k fl =>
+      exact Or.inr ⟨step_lz hl h3 (.applyFlags k fl) (fun _ _ _ => by simp) ok fits hd.seq, (step_inv3' g h3 (.applyFlags k fl) ok fits).1⟩
+    | defrag f =>
+      exact Or.inr ⟨step_lz hl h3 (.defrag f) (fun _ _ _ => by simp) ok fits hd.seq, (step_inv3' g h3 (.defrag f) ok fits).1⟩
+    | sync =>
+      exact Or.inr ⟨step_lz hl h3 (.sync) (fun _ _ _ => by simp) ok fits hd.seq, (step_inv3' g h3 (.sync) ok fits).1⟩
+    | noSync =>
+      exact Or.inr ⟨step_lz hl h3 (.noSync) (fun _ _ _ => by simp) ok fits hd.seq, (step_inv3' g h3 (.noSync) ok fits).1⟩
+
+/-- EVERY history, lazily loading store against its eager twin: the two runs stay related — same directory, same
+    file operations (hence the same crash directories), and the lazily loading store holds the twin's records,
+    some of them not in memory. -/
+theorem twin_run (H : List HItem) (a g : DB) (h : Twin a g) (ok : ∀ i ∈ H, OpOK4 eg (itemOp i))
+    (fits : HFits g (twin H)) : Twin (hrun a H) (hrun g (twin H)) := by
+  induction H generalizing a g with
+  | nil => exact h
+  | cons i t ih =>
+    cases i with
+    | op o =>
+      have oko := ok (.op o) List.mem_cons_self
+      obtain ⟨f1, f2, f3⟩ := fits
+      exact ih (step a o) (step g (twinOp o)) (twin_step a g h o oko f1 f2)
+        (fun x hx => ok x (List.mem_cons_of_mem _ hx)) f3
+    | crash o n ms vol opts =>
+      have oko := ok (.crash o n ms vol opts) List.mem_cons_self
+      obtain ⟨f1, f2, f3, f4⟩ := fits
+      have hs := twin_step a g h o oko f1 f2
+      have hcd : crashDir a o n = crashDir g (twinOp o) n := by
+        unfold crashDir opEffs
+        rw [h.fs, h.effs, hs.effs]
+      have he : hstep a (.crash o n ms vol opts) = hstep g (.crash (twinOp o) n ms vol opts) := by
+        show openDB (recrash opts (crashDir a o n) ms) vol true opts eg =
+          openDB (recrash opts (crashDir g (twinOp o) n) ms) vol true opts eg
+        rw [hcd]
+      have hsi : SInv (hstep g (.crash (twinOp o) n ms vol opts)) :=
+        (hrun_dur [.crash (twinOp o) n ms vol opts] g h.sinv
+          (fun x hx => by
+            rcases List.mem_singleton.mp hx with rfl
+            exact opOK3_twin o oko)
+          ⟨f1, f2, f3, trivial⟩).1
+      refine ih _ _ (Or.inl ⟨he, hsi⟩) (fun x hx => ok x (List.mem_cons_of_mem _ hx)) f4
+
+theorem itemOp_twin (i : HItem) : itemOp (twinItem i) = twinOp (itemOp i) := by
+  cases i <;> rfl
+
+theorem hok_twin (H : List HItem) (ok : ∀ i ∈ H, OpOK4 eg (itemOp i)) : ∀ i ∈ twin H, HOK eg i := by
+  intro i hi
+  obtain ⟨j, hj, rfl⟩ := List.mem_map.mp hi
+  show OpOK3 eg (itemOp (twinItem j))
+  rw [itemOp_twin]
+  exact opOK3_twin _ (ok j hj)
+
+/-- what a lazily loading store shows, against its twin -/
+theorem Twin.observe {a g : DB} (h : Twin a g) :
+    (∀ k, (Qdb.get a k).1.failed = none ∧ (Qdb.get a k).2 = vals g k) ∧
+    (∀ w, WalkOK eg w → (browse a w).2 = (browse g w).2) ∧ count a = count g := by
+  rcases h with ⟨rfl, h⟩ | ⟨h, h3⟩
+  · exact ⟨fun k => ⟨(get_cached a k h.cached).1.1, (get_cached a k h.cached).2.2⟩, fun _ _ => rfl, rfl⟩
+  · refine ⟨fun k => ?_, fun w hw => (browseGen_lz false h h3.inv w hw).2, h.idx.length⟩
+    obtain ⟨l, e⟩ := get_lz h h3.inv k
+    exact ⟨l.failed.trans (get_cached g k h3.inv.cached).1.1, e.trans (get_cached g k h3.inv.cached).2.2⟩
 
 end GocoinV.Proofs.C19
